@@ -10,7 +10,7 @@ import warnings
 import z3
 
 from . import ops
-from .core import (INT, BV8, ForeignError, Infeasible, Opaque, PyRaise, SBool, SBytes, SInt, SRange, SReal, SText,
+from .core import (INT, BV8, ForeignError, Infeasible, Opaque, PyRaise, SBool, SBytes, SInt, SNumText, SRange, SReal, SText,
                    Sym, Undecided, is_sym, zbool, zint, zreal)
 
 MODELS = {}
@@ -105,6 +105,10 @@ def _mk_text(fn):
         v = args[0]
         if fn is str and isinstance(v, SText):
             return v
+        if fn is str and isinstance(v, (SInt, SReal)) and len(args) == 1:
+            return SNumText(v)
+        if fn is str and isinstance(v, SNumText):
+            return v
         if fn is str and isinstance(v, str):
             return v
         if ops.all_concrete(args) and ops.all_concrete(kwargs.values()):
@@ -130,6 +134,11 @@ def m_int(I, args, kwargs):
     if not args:
         return 0
     v = args[0]
+    if isinstance(v, SNumText):
+        # int(text, base): the text of a float never parses as an int literal
+        if isinstance(v.num, SReal):
+            raise PyRaise(ValueError("invalid literal for int()"), implicit=True, where="int()")
+        return v.num
     if isinstance(v, SInt):
         return SInt(v.z, v.bv)
     if isinstance(v, SBool):
@@ -157,6 +166,8 @@ def m_float(I, args, kwargs):
     if not args:
         return 0.0
     v = args[0]
+    if isinstance(v, SNumText):
+        v = v.num
     if isinstance(v, SReal):
         return v
     if isinstance(v, (SInt, SBool)):
